@@ -146,6 +146,9 @@ def attachment_violations(pkg: dict, res: dict, nc: bool = False, matched_style:
     if not table or res.get("outcome") != "completed":
         return viols, stats
     seen: set[str] = set()
+    # griffe's Sphinx parser folds the continuation lines of a `:param:` field into one line (reST semantics), and the plain
+    # text parser has no notion of parameters: multi-line parameter descriptions are only judged for NumPy and Google style
+    multiline_params = pkg.get("doc_style") in ("NUMPYDOC", "GOOGLE")
     probes = (pkg.get("meta") or {}).get("probes") or {}
     aliases = ((pkg.get("meta") or {}).get("probes") or {}).get("aliases") or {}
     for rel, ent in sorted(engine.output_files(res["out_tree"]).items()):
@@ -187,6 +190,14 @@ def attachment_violations(pkg: dict, res: dict, nc: bool = False, matched_style:
                         viols.append({"class": "description-not-line-for-line", "detail": {
                             "path": rel, "line": c["line"], "token": tok, "expected_lines": want, "comment": c["text"][:500],
                             "fingerprint": {"gkey": "lines"}}})
+                if ok and matched_style and multiline_params and info["kind"] == "P" and len(info.get("lines") or []) > 1:
+                    got = [re.sub(r"^\s*\* ?", "", cl).rstrip() for cl in c["text"].split("\n")[1:]]
+                    want = [w.strip() for w in info["lines"]]
+                    idx = next((i for i, g in enumerate(got) if g.endswith(want[0]) and "@param" in g), None)
+                    if idx is None or [g.strip() for g in got[idx + 1 : idx + len(want)]] != want[1:]:
+                        viols.append({"class": "description-not-line-for-line", "detail": {
+                            "path": rel, "line": c["line"], "token": tok, "expected_lines": want, "comment": c["text"][:600],
+                            "fingerprint": {"gkey": "param-lines"}}})
                 if ok and info["kind"] == "P" and not nc:
                     # the line that carries a parameter's description names that parameter (checked verbatim without -nc)
                     for cl in c["text"].split("\n"):
